@@ -143,7 +143,7 @@ Fixpoint dump_run (base : bstr) (r : registry) (calls : list (option https_uri))
   end.
 
 Definition dumpnames_model (base : bstr) (hs : list bstr) : list (option bstr) :=
-  dump_run base reg_empty (dump_calls hs).
+  dump_run base reg_init (dump_calls hs).
 
 (* ---- the oracle ---- *)
 
@@ -198,7 +198,7 @@ Fixpoint reg_after (r : registry) (calls : list (option https_uri)) : registry :
   end.
 
 Definition dump_dirs (base : bstr) (hs : list bstr) : list (option https_uri * option bstr) :=
-  let r := reg_after reg_empty (dump_calls hs) in
+  let r := reg_after reg_init (dump_calls hs) in
   map (fun c => (c, match get_repo_name r c with Some (d, _) => Some (push base d) | None => None end)) (dump_repos hs).
 
 (* every write: (repository, rsync URI, path), in the order the harness performs them *)
@@ -253,14 +253,6 @@ Definition dump_tree_okb (ws : list (option https_uri * rsync_uri * bstr)) : boo
     if fid_eqb (fid (snd a)) (fid (snd b))
     then call_eqb (fst (fst a)) (fst (fst b)) && rsync_eqvb (snd (fst a)) (snd (fst b)) else true) ws) ws.
 
-(* the known-finding class: a repository directory of the dump that is not a plain new name:
-   authority "", "." or ".." (the directory is the dump's base or its parent) or "rsync"
-   (the directory of the rsync repository) *)
-Definition dump_known (hs : list bstr) : bool :=
-  existsb (fun h => match https_parse h with
-                    | Some n => negb (normalb (lower (h_auth n))) || beqb (lower (h_auth n)) (bytes_of "rsync")
-                    | None => false end) hs.
-
 Record case := { c_cache : bstr; c_rs : list bstr; c_hs : list bstr;
                  c_paths : list (option bstr);       (* hooks: the path builders, order of [entries] *)
                  c_tafiles : list (option bstr);     (* public Store Run::update_ta, file found on disk *)
@@ -303,9 +295,9 @@ Definition cache_okb (cache : bstr) : bool :=
 
 (* 0 agree + property; 1 property holds on the implementation's paths but the model differs;
    2 property fails on the implementation's paths (spec_okb, or two uses of different kinds share a
-   file: cross_okb; or two dump writes share a file / a dump directory is shared or outside the dump
-   directory, outside the known class); 3 the same for a case in the known-finding class
-   [dump_known]; 9 precondition *)
+   file: cross_okb; or a dump directory is shared between repositories or lies outside the dump
+   directory - judged on the names the implementation returned -; or two dump writes share a file);
+   9 precondition *)
 Definition check_case (c : case) : N :=
   if negb (cache_okb (c_cache c) && forallb bytes_okb (c_rs c) && forallb bytes_okb (c_hs c)) then 9
   else
@@ -320,8 +312,9 @@ Definition check_case (c : case) : N :=
         && olist_eqb (dumpnames_model (dump_base (c_cache c)) (c_hs c)) (c_dumpnames c)
         && olist_eqb (dumpfiles_model (push (c_cache c) (bytes_of "dumpobj")) (c_rs c)) (c_dumpfiles c)
         && olist_eqb (dump_tree (push (c_cache c) (bytes_of "dump")) ws) (c_dumptree c) in
-      (* the dump oracles are evaluated on paths the model computes; they count only if the
-         implementation produced exactly these paths *)
-      if negb agree then 1
-      else if dump_okb (push (c_cache c) (bytes_of "dump")) (c_hs c) (c_dumpnames c) && dump_tree_okb ws then 0
-      else if dump_known (c_hs c) then 3 else 2.
+      (* the registry oracle judges the names the implementation returned; the dump tree oracle is
+         evaluated on paths the model computes and counts only if the implementation produced
+         exactly these paths *)
+      if negb (dump_okb (push (c_cache c) (bytes_of "dump")) (c_hs c) (c_dumpnames c)) then 2
+      else if negb agree then 1
+      else if dump_tree_okb ws then 0 else 2.
